@@ -21,8 +21,12 @@ EXHAUSTIVE = {'quick': False, 'thorough': False}
 def observe(cx, seed, impl=None):
     if isinstance(impl, Exception):
         return Case(f'({cx.nG}%nat, [(0, 0, -999)])', cx.to_json(), False, [{'Context() raised': repr(impl)}], sig=cx.key())
-    ctx = impl if impl is not None else util.make_context(cx)
-    concepts = list(ctx.lattice)
+    if isinstance(impl, tuple):
+        ctx, lattice = impl
+    else:
+        ctx = impl if impl is not None else util.make_context(cx)
+        lattice = ctx.lattice
+    concepts = list(lattice)
     n = len(concepts)
     r = random.Random(seed * 1000003 + hash(cx.key()) % 1000003)
     if n <= 40:
@@ -59,11 +63,28 @@ def observe(cx, seed, impl=None):
 def cases(tier, seed):
     ctxs = util.contexts_for(tier, seed, rnd_quick=200, rnd_thorough=2000)
     impls = util.prebuild(ctxs)
-    return [observe(cx, seed, impl) for cx, impl in zip(ctxs, impls)]
+    out = [observe(cx, seed, impl) for cx, impl in zip(ctxs, impls)]
+    from . import latfam
+    for cx in latfam.indirect_bases(tier, seed):
+        for tag, impl in latfam.indirect_impls(cx, seed):
+            try:
+                c = observe(cx, seed, impl)
+            except Exception as e:  # noqa: BLE001
+                c = observe(cx, seed, e)
+            c.replay = dict(c.replay, obtained=tag)
+            c.sig = (cx.key(), tag)
+            out.append(c)
+    return out
 
 
 def case_from_replay(inp):
-    return observe(gen.Ctx.from_json(inp), 0)
+    cx = gen.Ctx.from_json(inp)
+    if inp.get('obtained'):
+        from . import latfam
+        for tag, impl in latfam.indirect_impls(cx, 0):
+            if tag == inp['obtained']:
+                return observe(cx, 0, impl)
+    return observe(cx, 0)
 
 
 def shrink_ctx(cx):
